@@ -162,6 +162,9 @@ def case_list(tier):
                     continue
                 for axis in range(len(shape) + 1):
                     cases.append((kind, "stack", "stack", k, shape, axis))
+                if k == 2:
+                    for axis in range(-(len(shape) + 1), 0):  # counted from the end, as numpy.stack accepts it
+                        cases.append((kind, "stack", "stack", k, shape, axis))
                 for axis in range(len(shape)):
                     cases.append((kind, "concat", "concat", k, shape, axis))
                     if kind == "xarray" and k == 2:
